@@ -1,6 +1,6 @@
 open M_sess
 (*#include convz*)
-(* dec <v13> <server> <hs> <rsec> <wsec> <err> <closed> <edskip> <edseen> <edmax> <limbo> <ignored> <ce> <se>
+(* dec <v13> <server> <hs> <rsec> <wsec> <err> <closed> <edskip> <edseen> <edmax> <limbo> <ignored> <ce> <se> <ccslast> <nstpending>
        <hdr> <outer> <short> <prot> <inner> <ccsok> <alertok> <lvl> <desc> <overflow> <empty> <len> <decfail>
        <okind> <h'> <r'> <w'> <v'> <resp> <odesc>
    enc <14 state fields> *)
@@ -8,7 +8,7 @@ let bt s = (s = "1")
 let zi s = z_of_int (int_of_string s)
 let mkst a i = { v13 = bt a.(i); server = bt a.(i+1); hs = zi a.(i+2); rsec = bt a.(i+3); wsec = bt a.(i+4); err = bt a.(i+5);
                  closed = bt a.(i+6); ed_skip = bt a.(i+7); ed_seen = zi a.(i+8); ed_max = zi a.(i+9); limbo = bt a.(i+10);
-                 ignored = zi a.(i+11); cl_early = bt a.(i+12); sv_early = bt a.(i+13) }
+                 ignored = zi a.(i+11); cl_early = bt a.(i+12); sv_early = bt a.(i+13); ccs_last = bt a.(i+14); nst_pending = bt a.(i+15) }
 let show_out o = match o with
   | Refuse -> "Refuse" | Deliver -> "Deliver" | AlertOut d -> Printf.sprintf "AlertOut:%d" (int_of_z d)
   | AlertIn (l, d) -> Printf.sprintf "AlertIn:%d:%d" (int_of_z l) (int_of_z d) | Ignored -> "Ignored"
@@ -19,16 +19,16 @@ let () = iter_lines (fun l ->
   let a = Array.of_list (split_ws l) in
   if a.(0) = "dec" then begin
     let s = mkst a 1 in
-    let r = { r_hdr = (match a.(15) with "ok" -> HdrOk | "type" -> HdrBadType | "ver" -> HdrBadVer | _ -> HdrBadLen);
-              r_outer = zi a.(16); r_short_alert = bt a.(17);
-              r_prot = (match a.(18) with "plain" -> Plain | "good" -> Good | _ -> Bad);
-              r_inner = zi a.(19); r_ccs_ok = bt a.(20); r_alert_ok = bt a.(21); r_alert_level = zi a.(22); r_alert_desc = zi a.(23);
-              r_overflow = bt a.(24); r_empty = bt a.(25); r_len = zi a.(26); r_decfail = bt a.(27) } in
-    let o = (match a.(28) with
-             | "ok" -> HsOk (zi a.(29), bt a.(30), bt a.(31), bt a.(32), bt a.(33))
-             | "fatal" -> HsFatal (zi a.(34))
-             | "fb" -> HsFallback (zi a.(29), bt a.(30), bt a.(31), bt a.(33))
-             | _ -> HsFallbackFatal (zi a.(34))) in
+    let r = { r_hdr = (match a.(17) with "ok" -> HdrOk | "type" -> HdrBadType | "ver" -> HdrBadVer | _ -> HdrBadLen);
+              r_outer = zi a.(18); r_short_alert = bt a.(19);
+              r_prot = (match a.(20) with "plain" -> Plain | "good" -> Good | _ -> Bad);
+              r_inner = zi a.(21); r_ccs_ok = bt a.(22); r_alert_ok = bt a.(23); r_alert_level = zi a.(24); r_alert_desc = zi a.(25);
+              r_overflow = bt a.(26); r_empty = bt a.(27); r_len = zi a.(28); r_decfail = bt a.(29) } in
+    let o = (match a.(30) with
+             | "ok" -> HsOk (zi a.(31), bt a.(32), bt a.(33), bt a.(34), bt a.(35))
+             | "fatal" -> HsFatal (zi a.(36))
+             | "fb" -> HsFallback (zi a.(31), bt a.(32), bt a.(33), bt a.(35))
+             | _ -> HsFallbackFatal (zi a.(36))) in
     let (s', out) = decode s r o in
     show_out out ^ " " ^ show_st s'
   end else if a.(0) = "enc" then Printf.sprintf "ok=%d" (b2i (encode_app_ok (mkst a 1)))
